@@ -8,7 +8,20 @@ cd /verif/harness || exit 2
 mkdir -p /verif/bin /verif/evidence /verif/replays
 ID="$1"; TIER="${2:-quick}"
 BIN=/verif/bin/vcheck.$$.$ID
-if ! go build -o "$BIN" ./cmd/vcheck 2>/verif/bin/build.$ID.log; then
+BUILDARGS=""
+OVDIR=""
+if [ "$ID" = "C14" ]; then
+  OVDIR=/verif/bin/ov.$$
+  if python3 /verif/tools/mkoverlay.py "$OVDIR" >/dev/null 2>&1 && go build -tags verifshim -overlay "$OVDIR/overlay.json" -o "$BIN" ./cmd/vcheck 2>/verif/bin/build.$ID.log; then
+    BUILDARGS=done
+  else
+    echo "note: sync shim overlay build failed, falling back to the plain build" >&2
+  fi
+  if go build -race -o /verif/bin/vrace.$$ ./cmd/vrace 2>>/verif/bin/build.$ID.log; then
+    export VERIF_RACE_BIN=/verif/bin/vrace.$$
+  fi
+fi
+if [ "$BUILDARGS" != "done" ] && ! go build -o "$BIN" ./cmd/vcheck 2>/verif/bin/build.$ID.log; then
   echo "harness build failed against /repo working tree:" >&2
   cat /verif/bin/build.$ID.log >&2
   rm -f "$BIN"
@@ -24,5 +37,6 @@ case "$ID" in C10|C15)
 esac
 "$BIN" "$ID" --tier "$TIER"
 rc=$?
-rm -f "$BIN" $GXZ
+rm -f "$BIN" $GXZ /verif/bin/vrace.$$
+[ -n "$OVDIR" ] && rm -rf "$OVDIR"
 exit $rc
